@@ -55,8 +55,8 @@ def run(chk, repo):
     from .common_rules import parse_and_transform, to_dict_contract, to_dict_rules
     chk.rule("C04-T6", "parsed containers reach the pipelines in the assumed shape (to_dict contract) and the leader is parsed with sar_leader_record and transformed by transform_metadata", 4)
     to_dict_rules(chk, repo, "C04-T6")
-    parse_and_transform(chk, repo, "C04-T6", "ceos_alos2.sar_leader.io", "sar_leader_record", "transform_metadata", "open_sar_leader")
     chk.attempt(opener_contents, chk, repo)
+    chk.attempt(parse_and_transform, chk, repo, "C04-T6", "ceos_alos2.sar_leader.io", "sar_leader_record", "transform_metadata", "open_sar_leader", covered_by="opener_contents")
 
 
 def opener_contents(chk, repo):
